@@ -48,9 +48,55 @@ void yakushima_verif_hook(int kind, const void* addr) {
         else if (kind == 0) ++g_wld;
     }
 }
-void yakushima_verif_event(int, const void*, unsigned long) {}
+struct ev_rec { std::uint32_t kind; const void* ptr; std::uint64_t tag; };
+static ev_rec g_ev[64];
+static std::uint32_t g_nev = 0;
+void yakushima_verif_event(int ev, const void* p, unsigned long tag) {
+    if (g_nev < 64) g_ev[g_nev] = ev_rec{static_cast<std::uint32_t>(ev), p, tag};
+    ++g_nev;
+}
+std::uint32_t yk_event_count(void) { return g_nev; }
+std::uint32_t yk_event_kind(std::uint32_t i) { return i < 64 ? g_ev[i].kind : 99; }
+const void* yk_event_ptr(std::uint32_t i) { return i < 64 ? g_ev[i].ptr : nullptr; }
+std::uint64_t yk_event_tag(std::uint32_t i) { return i < 64 ? g_ev[i].tag : 0; }
+void yk_event_reset(void) { g_nev = 0; }
+std::int64_t yk_live_allocs(void);
+int yk_is_live(const void* p);
 void yk_reach_at(std::uint32_t line) { std::printf("REACH reach:%u\n", line); }
 }
+
+// ---- allocation accounting: every operator new/delete variant of the program under test goes through here
+#include <new>
+namespace {
+std::int64_t g_live = 0;
+bool g_track = false;
+void* yk_alloc(std::size_t n, std::size_t al) {
+    void* p = nullptr;
+    if (al < sizeof(void*)) al = sizeof(void*);
+    if (posix_memalign(&p, al, n == 0 ? 1 : n) != 0) std::abort();
+    if (g_track) { __atomic_add_fetch(&g_live, 1, __ATOMIC_SEQ_CST); }
+    return p;
+}
+void yk_free(void* p) {
+    if (p == nullptr) return;
+    if (g_track) { __atomic_sub_fetch(&g_live, 1, __ATOMIC_SEQ_CST); }
+    std::free(p);
+}
+} // namespace
+void* operator new(std::size_t n) { return yk_alloc(n, 16); }
+void* operator new[](std::size_t n) { return yk_alloc(n, 16); }
+void* operator new(std::size_t n, std::align_val_t a) { return yk_alloc(n, static_cast<std::size_t>(a)); }
+void* operator new[](std::size_t n, std::align_val_t a) { return yk_alloc(n, static_cast<std::size_t>(a)); }
+void operator delete(void* p) noexcept { yk_free(p); }
+void operator delete[](void* p) noexcept { yk_free(p); }
+void operator delete(void* p, std::size_t) noexcept { yk_free(p); }
+void operator delete[](void* p, std::size_t) noexcept { yk_free(p); }
+void operator delete(void* p, std::align_val_t) noexcept { yk_free(p); }
+void operator delete[](void* p, std::align_val_t) noexcept { yk_free(p); }
+void operator delete(void* p, std::size_t, std::align_val_t) noexcept { yk_free(p); }
+void operator delete[](void* p, std::size_t, std::align_val_t) noexcept { yk_free(p); }
+extern "C" std::int64_t yk_live_allocs(void) { return g_live; }
+extern "C" int yk_is_live(const void*) { return 1; } // not observable natively; ASan builds catch use-after-free instead
 
 int main(int argc, char** argv) {
     if (argc < 3) {
@@ -67,7 +113,9 @@ int main(int argc, char** argv) {
         std::fprintf(stderr, "no harness %s\n", argv[1]);
         return 2;
     }
+    g_track = true;
     reinterpret_cast<void (*)()>(sym)();
+    g_track = false;
     std::printf("DONE inputs_used=%zu overrun=%u\n", g_pos, g_overrun);
     return 0;
 }
